@@ -391,6 +391,7 @@ func main() {
 		scs = append(scs, scenario(cfg{SzxA: 0, SzxB: 0, Up: -1, Down: 33, Style: "do", CON: false, Two: true, Faults: 1, Preempt: 1}))
 	}
 	addPeer(r, &scs)
+	addCancel(r, &scs)
 	addObserve(r, &scs)
 	addStream(r, &scs)
 	sum := mcx.Explore(r, scs, mcx.Config{Wall: ev.Pick(r, 4*time.Minute, 30*time.Minute)})
